@@ -230,6 +230,8 @@ def unit_fails(d, u, name="one.h"):
     if exp != truth:
         return ("inconclusive", "")
     st = pr.pf_state()
+    if st == "timeout" or pr.ref.timed_out:
+        return ("inconclusive", "")     # the statement does not promise termination in bounded time (C15 does)
     if st:
         return (st, "")
     got = by_seq(pr.got).get("s0", [])
@@ -351,6 +353,10 @@ def run_rand(ctx, case, res):
         res.sample = dict(family="rand", note="g++ and the generator disagree", text=text[:1500])
         return
     st = pr.pf_state()
+    if st == "timeout":
+        res.inconclusive = "watchdog"
+        res.count("timeouts")
+        return
     in_skipped = [x for x in pr.diags if any(a <= x[0] <= b for a, b in f.skipped)]
     other_err = [x for x in pr.diags if x[1] == "error" and x not in in_skipped]
     res.count("conditions_evaluated", sum(1 for c in f.conds if c["evaluated"]))
@@ -412,6 +418,10 @@ def run_sections(d, incs, secs, name, res=None):
             lines += ls
         pr = Pair(d, "%s_%d.h" % (name, n), "\n".join(lines) + "\n", incs)
         st = pr.pf_state()
+        if st == "timeout":
+            for k, ls, exp in todo:
+                out[k] = "inconclusive"
+            break
         if st is None:
             g, e = set(pr.got), set(pr.exp)
             for k, ls, exp in todo:
@@ -432,7 +442,7 @@ def run_sections(d, incs, secs, name, res=None):
                 lines += ls
             n += 1
             p2 = Pair(d, "%s_%d.h" % (name, n), "\n".join(lines) + "\n", incs, ref=False)
-            if p2.pf_state() is None:
+            if p2.pf_state() in (None, "timeout"):
                 lo = mid
             else:
                 hi, st = mid, p2.pf_state()
@@ -767,7 +777,7 @@ def main(chk):
         cases.append(dict(id="x%d" % i, kind="exh", D=Dx, part=pt))
     for i, pt in enumerate(parts(Ds, 2)):
         cases.append(dict(id="s%d" % i, kind="side", D=Ds, part=pt))
-    nr = chk.pick(400, 6000)
+    nr = chk.pick(400, 4000)
     for i in range(nr):
         prof = {}
         if i % 10 == 3:
